@@ -52,7 +52,7 @@ SAME_SHAPE = {"local." + f: None for f in ("cell_stats", "combine", "lesser_freq
 NUMPY_ONLY = {"classify.natural_breaks", "pathfinding.a_star_search", "viewshed.viewshed", "zonal.regions",
               "zonal.trim", "zonal.crop", "zonal.apply", "bump.bump", "convolution.custom_kernel",
               "convolution.calc_cellsize", "utils.get_xy_range", "utils.calc_res",
-              "utils.get_dataarray_resolution", "analytics.summarize_terrain"} | set(SAME_SHAPE)
+              "utils.get_dataarray_resolution", "analytics.summarize_terrain", "polygonize.polygonize"} | set(SAME_SHAPE)
 SLOW = {"proximity.proximity", "proximity.allocation", "proximity.direction", "viewshed.viewshed",
         "pathfinding.a_star_search", "zonal.regions"}
 
@@ -139,7 +139,7 @@ def build(case):
     import xarray as xr
     rng = random.Random(case["seed"])
     mod, fn = case["func"].split(".")
-    m = importlib.import_module("xrspatial." + mod)
+    m = importlib.import_module("xrspatial." + {"polygonize": "experimental.polygonize"}.get(mod, mod))
     f = getattr(m, fn)
     I = Inputs()
     kw = {}
@@ -253,6 +253,15 @@ def build(case):
             I.plain("data_vars", ["b", "c"])
         else:
             I.plain("data_vars", rng.choice([None, ["a", "b"]]))
+    elif key == "polygonize.polygonize":
+        I.raster("raster", rng, case, kind="zones")
+        mc = dict(case, dtype=rng.choice(["bool", "uint8", case["dtype"]]))
+        if rng.random() < 0.5:
+            I.raster("mask", rng, mc, kind="targets")
+        else:
+            I.plain("mask", None)
+        I.array("transform", np.array([2.0, 0.0, 10.0, 0.0, -2.0, 50.0])) if rng.random() < 0.5 else I.plain("transform", None)
+        kw["connectivity"] = rng.choice([4, 8])
     elif key == "bump.bump":
         kw.update(width=8, height=6, count=5, spread=2)
         I.plain("height_func", lambda locs: np.ones(len(locs)) * 3)
@@ -577,6 +586,15 @@ def primitive_probes():
         ("DataArray[mask]", "copy", lambda a: xr.DataArray(a.ravel())[np.isfinite(a.ravel())].data),
         ("DataArray.astype", "copy", lambda a: xr.DataArray(a).astype(a.dtype).data),
         ("DataArray.copy", "copy", lambda a: xr.DataArray(a).copy().data),
+        (".to_dataset", "view", lambda a: xr.DataArray(a, name="n").to_dataset()["n"].data),
+        (".sel", "mview", lambda a: xr.DataArray(a, dims=["y", "x"], coords={"y": np.arange(a.shape[0]),
+                                    "x": np.arange(a.shape[1])}).sel(x=[1], y=[1], method="nearest").data),
+        (".get", "mview", lambda a: {"k": a}.get("k")),
+        ("pd.DataFrame", "alloc", lambda a: __import__("pandas").DataFrame({"c": a.ravel().copy(), "d": a.ravel()})["d"].values),
+        ("pd.Index", "alloc", lambda a: __import__("pandas").Index(a.ravel()[:2].tolist()).values),
+        (".max", "alloc", lambda a: a.max()), (".min", "alloc", lambda a: a.min()), (".sum", "alloc", lambda a: a.sum()),
+        (".any", "alloc", lambda a: a.any()), (".item", "alloc", lambda a: a[0, 0].item()),
+        ("abs", "alloc", lambda a: abs(a)), ("Counter", "alloc", lambda a: np.array(list(__import__("collections").Counter(a.ravel().tolist())))),
     ]
     return P
 
@@ -646,8 +664,12 @@ def run_primitive_probes(r, used):
                                        maybe_view_resolutions={n: sorted(v) for (n, c), v in seen.items() if c == "mview"})
     probed = {n for n, _ in seen}
     r.extra["primitives_used_by_programs"] = sorted(used)
-    r.extra["primitives_used_not_probed"] = sorted(u for u in used if not any(
-        u == p or u.split(".")[-1] in p for p in probed) and not (u in fb.PRIMS and u.startswith("np.")))
+    def cls_of(u):
+        return fb.METHODS.get(u[1:]) if u.startswith(".") else fb.PRIMS.get(u)
+    r.extra["primitives_used_not_probed"] = sorted(
+        u for u in used if cls_of(u) in ("alloc", "copy", "view", "mview", "astype")
+        and not any(u == p or (u.startswith(".") and u in p) for p in probed)
+        and not (u in fb.PRIMS and u.startswith("np.")))
 
 
 # ------------------------------------------------------------------------------------------------ the check
